@@ -289,6 +289,17 @@ fn gen_plan(rng: &mut Prng, forced: Option<(u64, u64)>) -> (ClockSpec, u64) {
     }
     plan.d = warm;
     plan.d.extend(measured);
+    if forced.is_none() && rng.chance(1, 6) {
+        // the clock steps back (or stands still) BETWEEN probes - unsynchronised per-core counters, two
+        // clock domains - while every probe by itself is what the class made it: no failure condition
+        // looks at the relation between different probes
+        let k = rng.range(4, 80) as usize;
+        for _ in 0..k {
+            let lo = if rng.chance(1, 5) { 0 } else { WARMUP as u64 };
+            let i = rng.range(lo, PROBES as u64 - 1) as usize;
+            plan.gap[i] = if rng.chance(1, 6) { 0 } else { 0u64.wrapping_sub(rng.range(1, 200_000)) };
+        }
+    }
     let mut readings = layout(&plan);
     if CLASSES[class as usize] == "hostile" {
         // a fully generic hostile script from the fault catalogue
